@@ -109,6 +109,8 @@ def enumerate_cases(tier, shard=0, nshards=1):
             continue
         yield {'kind': 'pair', 'mode': 'call', 'a': a, 'b': b}
         yield {'kind': 'pair', 'mode': 'formula', 'a': a, 'b': b}
+        if _lit(a) is not None and _lit(b) is not None:
+            yield {'kind': 'pair', 'mode': 'literal', 'a': a, 'b': b}
     nonblank = [v for v in POOL if v[0] != 'z']
     for a, b, c in itertools.product(nonblank, repeat=3):
         i += 1
@@ -166,6 +168,28 @@ def _call_all(a, b):
     return out
 
 
+def _lit(v):
+    t = v[0]
+    if t == 'n':
+        if abs(v[1]) >= 1e15 or (v[1] != 0 and abs(v[1]) < 1e-4):
+            return None
+        return repr(v[1]) if v[1] >= 0 else '(' + repr(v[1]) + ')'
+    if t == 's':
+        return '"' + v[1].replace('"', '""') + '"'
+    if t == 'b':
+        return 'TRUE' if v[1] else 'FALSE'
+    return None
+
+
+def _literal_all(a, b):
+    la, lb = _lit(a), _lit(b)
+    fwd, rev = {}, {}
+    for name, sym in OPS:
+        fwd[sym] = lib.eval_formula('=%s%s%s' % (la, sym, lb))[0]
+        rev[sym] = lib.eval_formula('=%s%s%s' % (lb, sym, la))[0]
+    return fwd, rev
+
+
 def _formula_all(a, b):
     xl = lib.lib()
     cells = {}
@@ -210,6 +234,8 @@ def judge(case):
     ty = _types(a, b)
     if mode == 'call':
         fwd, rev = _call_all(a, b), _call_all(b, a)
+    elif mode == 'literal':
+        fwd, rev = _literal_all(a, b)
     else:
         fwd, rev = _formula_all(a, b)
     blank = a[0] == 'z' or b[0] == 'z'
